@@ -37,7 +37,13 @@ RULE = ("Hypothesis draws a prescription of 1..3 surfaces (plane / sphere / coni
         "Surface objects have been traced again (reversed bundle, itself verified step by step); surf.P / R / typ unchanged by tracing.  "
         "Sphere / conic / off-axis conic surfaces are also built with another prescription (c/2, k - 0.5, other dx / dy), optionally evaluated "
         "once (sag_normal), and then set to the prescription of the case through the public params dict their constructor stores "
-        "(surf.params['c'] = ..., 'k', 'dx', 'dy'; one, two or all entries): the surface traced is the conicoid params describes.")
+        "(surf.params['c'] = ..., 'k', 'dx', 'dy'; one, two or all entries): the surface traced is the conicoid params describes.  "
+        "Prescriptions of 2-3 surfaces are also built from shared parameter objects: one rotation-matrix object (make_rotation_matrix called once) "
+        "handed to all / the first two / the last two surfaces (common tilt <= 5 deg about x, y, any angle about z), or to every surface of a "
+        "prescription turned rigidly about its first vertex (P_j = P_0 + R^T (P_j - P_0), tilts to 80 deg about x / y: fold-mirror like geometry); "
+        "one index callable for the first and last surface; the first Surface object standing a second time behind a mirror (double pass).  "
+        "Those traces are checked step by step like any other (the recorded point on surface j+1 must lie on the ray that left surface j) and "
+        "must equal, bit for bit, the trace of the same prescription built from equal, separate objects.")
 ASSUMPTIONS = [
     "a surface placed with (P, R) is the set {P + R^T (x, y, sag(x,y))}, i.e. local = R (X - P) as documented in "
     "transform_to_local_coords; R is whatever Surface(...) stores (checked orthonormal, det +1)",
@@ -62,6 +68,9 @@ ASSUMPTIONS = [
     "Surface.conic / sphere / off_axis_conic keep their prescription in the public dict surf.params, which their sag / normal closures read "
     "at every evaluation: assigning entries of that dict re-prescribes the surface (the surface is the conicoid its params describe)",
     "an 'eval' surface does not bend the ray and does not change the medium: point on the ray and on the sag, S' = S",
+    "which Python objects the surfaces of a prescription share (one R matrix for several surfaces, one n callable, one Surface listed twice) is no "
+    "part of the prescription: raytrace documents a sequence of surfaces described by typ / P / R / n, so the trace with shared objects is the same "
+    "computation as with equal copies (compared exactly) - a double pass through a refracting Surface uses that surface's n as n' again, as raytrace documents",
     "float32 rays: the trace runs in float64 against float64 surfaces and the histories are stored in float32; every tolerance is "
     "2e-5 (positions relative to the scale of the system), origins 'at infinity' are not given in float32",
 ]
@@ -298,13 +307,16 @@ def _stype(typ):
     return {'refl': sf.STYPE_REFLECT, 'refr': sf.STYPE_REFRACT, 'eval': sf.STYPE_EVAL}[typ]
 
 
-def ctor_args(ctx, spec, away=False):
+def ctor_args(ctx, spec, away=False, shared=None):
     """(typ, P, n, R) as handed to a Surface constructor, in the forms the case asks for (spec['ctor']):
     P  list | tuple | ndarray | whole-number list of ints | the bare z (x = y = 0) | [y, z] (x = 0), as in the tutorials
     R  None | tuple | list of zyx angles | the rotation matrix itself (from prysm.coordinates.make_rotation_matrix)
     typ 'refl' / 'reflect' / any case | the integer STYPE constant
     n  callable for refracting surfaces; for mirrors None, left out, or a callable that must not matter
-    away=True: another valid position / tilt / type / index (the object is then re-pointed through its public attributes)"""
+    away=True: another valid position / tilt / type / index (the object is then re-pointed through its public attributes)
+    shared: None, or the dict {'R': {}, 'n': {}} of the parameter objects already made for this prescription: a surface whose spec
+    says share_R is given the one rotation-matrix object made for its tilt (the two faces of a tilted element, parallel fold
+    mirrors: R = make_rotation_matrix(...) written once), surfaces of equal index the one index callable"""
     from prysm.coordinates import make_rotation_matrix
     ct = spec.get('ctor') or {}
     typ = spec['typ']
@@ -319,6 +331,8 @@ def ctor_args(ctx, spec, away=False):
         nfun = (lambda wvl, _n=n1: 1.0 + 0.5 * _n)
         P = [P[0] - 1.5, P[1] + 0.7, P[2] + 3.0]
         R = [12.0, -3.0, 4.0] if R is None else None
+    elif shared is not None and shared.get('n') is not None:
+        nfun = shared['n'].setdefault(n1, nfun)
     pf = ct.get('P', 'list')
     if pf == 'int' and all(v == round(v) for v in P):
         Parg = [int(v) for v in P]
@@ -335,6 +349,8 @@ def ctor_args(ctx, spec, away=False):
     rf = ct.get('R', 'tuple')
     if R is None:
         Rarg = None
+    elif shared is not None and spec.get('share_R') and not away:
+        Rarg = shared_matrix(ctx, shared, R)
     elif rf == 'list':
         Rarg = list(R)
     elif rf == 'matrix':
@@ -351,11 +367,19 @@ def ctor_args(ctx, spec, away=False):
     return targ, Parg, narg, Rarg, (nf == 'omit' and typ != 'refr')
 
 
-def build(ctx, spec, mdl):
+def shared_matrix(ctx, shared, R):
+    from prysm.coordinates import make_rotation_matrix
+    key = tuple(float(v) for v in R)
+    if key not in shared['R']:
+        shared['R'][key] = np.asarray(ctx.call(make_rotation_matrix, key))
+    return shared['R'][key]
+
+
+def build(ctx, spec, mdl, shared=None):
     from prysm.x.raytracing.surfaces import Surface
     ct = spec.get('ctor') or {}
     reassign = bool(ct.get('reassign', False))
-    typ, P, n, R, omit_n = ctor_args(ctx, spec, away=reassign)
+    typ, P, n, R, omit_n = ctor_args(ctx, spec, away=reassign, shared=shared)
     given = (_copy_arg(P), _copy_arg(R))
     kw = {} if omit_n else {'n': n}
     kind = mdl.kind
@@ -406,11 +430,11 @@ def build(ctx, spec, mdl):
     if reassign:
         # a Surface is, for raytrace(), the attributes typ / P / R / n it documents: point the object built elsewhere at the
         # position, tilt, type and index of the case through them
-        typ2, P2, n2, R2, _ = ctor_args(ctx, dict(spec, ctor={}))
+        typ2, P2, n2, R2, _ = ctor_args(ctx, dict(spec, ctor={}), shared=shared)
         from prysm.coordinates import make_rotation_matrix
         s.typ = _stype(spec['typ'])
         s.P = np.array(P2, dtype=np.float64)
-        s.R = None if R2 is None else np.asarray(ctx.call(make_rotation_matrix, R2))
+        s.R = None if R2 is None else R2 if isinstance(R2, np.ndarray) else np.asarray(ctx.call(make_rotation_matrix, R2))
         s.n = n2
     return s
 
@@ -588,11 +612,29 @@ def _resolve_near_matched(case):
 def check_trace(case, ctx):
     """raytrace() through 1..3 surfaces: every step keeps the ray on its line and on the sag, |S'|=1, law of reflection / vector Snell law."""
     from prysm.x.raytracing import spencer_and_murty as sm
+    case, share = apply_share(case)
     specs, near = _resolve_near_matched(case)
     if near:
         ctx.label('nearly-index-matched-interface')
+    shared = None
+    if share and share.get('same_object'):
+        specs[2]['n'] = specs[0]['n']       # one object, one index (whatever 'dn' made of it on the way out)
+    if share:
+        shared = {'R': {}, 'n': {} if share.get('n') else None}
+        ctx.label(*('shared:' + w for w in share['labels']))
+        if share.get('rigid'):
+            # the whole prescription turned rigidly about the first vertex: P_j = P_0 + R^T (P_j - P_0), R whatever
+            # make_rotation_matrix returns (the Surface constructor is checked to store it, check_frame)
+            Rm = np.asarray(shared_matrix(ctx, shared, share['tilt']), dtype=np.float64)
+            U.check_shape(Rm, (3, 3), 'surface:R')
+            P0_ = np.asarray(specs[0]['P'], dtype=np.float64)
+            for sp in specs[1:]:
+                sp['P'] = (P0_ + Rm.T @ (np.asarray(sp['P'], dtype=np.float64) - P0_)).tolist()
     mdls = [Model(s) for s in specs]
-    surfs = [build(ctx, s, m) for s, m in zip(specs, mdls)]
+    surfs = [build(ctx, s, m, shared) for s, m in zip(specs, mdls)]
+    if share and share.get('same_object'):
+        # the same Surface object stands twice in the prescription (double pass: out through it, back from a mirror)
+        surfs[2] = surfs[0]
     frames = [check_frame(ctx, sf, s) for sf, s in zip(surfs, specs)]
     state = [(np.array(sf.P, copy=True), None if sf.R is None else np.array(sf.R, copy=True), sf.typ) for sf in surfs]
     n_amb = float(case['n_ambient'])
@@ -669,6 +711,20 @@ def check_trace(case, ctx):
                     'the histories returned by an earlier raytrace() of the same surfaces changed during this one')
     kept = (ph.copy(), sh.copy())
     nontrivial = verify_history(ctx, ph.astype(np.float64), sh.astype(np.float64), mdls, specs, frames, n_amb, tol, 'first-trace')
+    if share:
+        # the same prescription built from equal but separate parameter objects (one rotation matrix, one index callable, one
+        # Surface per entry): which objects are shared is no part of the prescription, the two traces are the same computation
+        sep = [build(ctx, s_, Model(s_), None) for s_ in specs]
+        Parg_, Sarg_, _, _ = ray_args(Pg, Sg, form, single)
+        ph_, sh_ = traced(ctx, sm, sep, Parg_, Sarg_, 0.6328, n_amb, nsurf, single, len(Pg), 'trace of the prescription built from separate objects')
+        for nm, a_, b_ in (('P_hist', ph, ph_), ('S_hist', sh, sh_)):
+            if not np.array_equal(a_, b_, equal_nan=True):
+                df = np.abs(a_.astype(np.float64) - b_.astype(np.float64))
+                df = np.where(np.isfinite(df), df, np.inf)
+                jj = int(np.argmax(df.reshape(df.shape[0], -1).max(axis=1)))
+                ctx.fail('raytrace:shared-parameter-object', '%s differs between the prescription whose surfaces share %s and the same prescription built from equal, separate '
+                         'objects: first at history row %d (surface %d), max |difference| %.3g; tilt %r, vertices %r' % (
+                             nm, ' + '.join(share['labels']), int(np.argmax(df.reshape(df.shape[0], -1).max(axis=1) > 0)), jj - 1, float(df.max()), share['tilt'], [sp['P'] for sp in specs]))
 
     if case.get('retrace', False):
         # the same Surface objects used again with other arguments: the bundle in reverse order (single ray: the same ray
@@ -691,6 +747,64 @@ def check_trace(case, ctx):
                 want.update(dx=m.sx, dy=m.sy)
             ctx.require(all(sf.params.get(key) == v for key, v in want.items()), 'surface:modified-by-trace', 'surface %d: params %r changed to %r while tracing' % (j, want, sf.params))
     ctx.nt(nontrivial)
+
+
+def apply_share(case):
+    """case['share'] (None for the replays written before it existed) -> (case with the sharing written into its surface
+    specs, the share dict with 'labels' / resolved indices, or None).
+    share = {'R': 'all' | 'first' | 'last' | None   which consecutive surfaces get the common tilt `tilt` and one matrix object for it,
+             'rigid': bool   every surface gets the tilt and the vertices are turned with it about the first vertex (any angle),
+             'tilt': [z, y, x] degrees, 'n': bool   the last surface gets the index of the first and they share the callable,
+             'same_object': bool   three surfaces, the middle one a mirror: the third entry is the first Surface object again}"""
+    share = case.get('share')
+    if not share:
+        return case, None
+    share = dict(share)
+    case = dict(case)
+    surfs = [dict(sp) for sp in case['surfaces']]
+    nsurf = len(surfs)
+    labels = []
+    if share.get('same_object') and nsurf == 3 and surfs[1]['typ'] == 'refl' and surfs[0]['typ'] != 'refl':
+        surfs[2] = dict(surfs[0])
+        labels.append('surface-object-twice')
+    else:
+        share['same_object'] = False
+    which = 'all' if share.get('rigid') else share.get('R')
+    idx = {'all': list(range(nsurf)), 'first': [0, 1], 'last': [nsurf - 2, nsurf - 1]}.get(which, []) if nsurf >= 2 else []
+    if share.get('same_object') and idx:
+        idx = list(range(nsurf))        # entries 0 and 2 are one object: one tilt for all
+    if idx and any(float(a) != 0 for a in share['tilt']):
+        for j in idx:
+            surfs[j]['R'] = [float(a) for a in share['tilt']]
+            surfs[j]['share_R'] = True
+        labels.append('R-matrix:%s%s' % ('rigidly-turned-system' if share.get('rigid') else 'consecutive-surfaces', ''))
+    else:
+        share['rigid'] = False
+    if share.get('n') and nsurf >= 2 and not share.get('same_object'):
+        surfs[-1]['n'] = surfs[0]['n']
+        surfs[-1]['dn'] = None
+        labels.append('index-callable')
+    elif share.get('same_object'):
+        share['n'] = False
+    else:
+        share['n'] = False
+    if not labels:
+        return case, None
+    share['labels'] = labels
+    case['surfaces'] = surfs
+    return case, share
+
+
+def share_s(maxtilt, rigid=True, same_object=True):
+    """which parameter objects the surfaces of a prescription share (see apply_share)"""
+    def body(rg):
+        a = 80 if rg else maxtilt
+        ang = st.tuples(_i(-1800, 1800, 10), _i(-a * 10, a * 10, 10), _i(-a * 10, a * 10, 10)).map(list)
+        tilt = st.one_of(ang, ang, st.tuples(_i(-1800, 1800, 10), st.just(0.0), st.just(0.0)).map(list),
+                         st.sampled_from([[0.0, 0.0, -45.0], [90.0, 0.0, 0.0], [0.0, 30.0, 0.0], [4.0, 7.0, -11.0]] if rg else [[0.0, 0.0, float(maxtilt)], [90.0, 0.0, 0.0], [4.0, 3.0, -5.0]]))
+        return st.fixed_dictionaries({'R': st.sampled_from(['all', 'all', 'first', 'last', None]), 'rigid': st.just(rg), 'tilt': tilt,
+                                      'n': st.sampled_from([False, False, True]), 'same_object': st.sampled_from([False, False, True] if same_object else [False])})
+    return st.sampled_from([False, True] if rigid else [False]).flatmap(body)
 
 
 def verify_history(ctx, ph, sh, mdls, specs, frames, n_amb, tol, which):
@@ -917,6 +1031,8 @@ def strat_argtypes(tier):
     def assemble(t):
         surfs, gap, case = t
         case = dict(case)
+        if len(surfs) < 2:
+            case['share'] = None
         if len(surfs) == 2:
             s0, s1 = dict(surfs[0]), dict(surfs[1])
             direction = case['dirz']
@@ -935,7 +1051,8 @@ def strat_argtypes(tier):
         'rays': st.just([]), 'nrand': st.just(0), 'seed': st.just(0),
         'dirz': st.sampled_from([1, 1, -1]), 'd': st.integers(1, 40),
         'warmup': st.booleans(), 'retrace': st.sampled_from([False, False, True]), 'pform': st.sampled_from(INT_RAY_FORMS),
-        'form': st.sampled_from(['batch', 'batch', 'single1d'])})
+        'form': st.sampled_from(['batch', 'batch', 'single1d']),
+        'share': st.one_of(st.none(), st.none(), share_s(12, rigid=False, same_object=False))})
     return st.integers(1, 2).flatmap(lambda n: st.tuples(
         st.lists(surface_s(kinds, 12, _i(-200, 200, 10), types=('refl', 'refr', 'refr')), min_size=n, max_size=n), _i(50, 300, 10), base)).map(assemble)
 
@@ -946,6 +1063,13 @@ def strat_prescription(tier):
 
     def assemble(t):
         surfs, gaps, case = t
+        share = case.get('share')
+        if share and share.get('same_object') and len(surfs) == 3:
+            # out through the first surface, back from a mirror, through the first surface again
+            surfs = [dict(sp) for sp in surfs]
+            surfs[1]['typ'] = 'refl'
+            if surfs[0]['typ'] == 'refl':
+                surfs[0]['typ'] = 'refr'
         z = surfs[0]['P'][2]
         direction = case['dirz']
         out = []
@@ -968,7 +1092,8 @@ def strat_prescription(tier):
         'nrand': st.integers(0, 24), 'seed': U.seeds, 'dirz': st.sampled_from([1, 1, -1]),
         'd': st.one_of(_i(10, 300, 10), _i(10, 300, 10), _i(10, 300, 10), st.sampled_from([1e7, 1e10])), 'warmup': st.booleans(),
         'retrace': st.sampled_from([False, False, False, True]), 'pform': st.sampled_from(RAY_FORMS),
-        'form': st.sampled_from(['batch', 'batch', 'batch', 'single1d'])})
+        'form': st.sampled_from(['batch', 'batch', 'batch', 'single1d']),
+        'share': st.one_of(st.none(), share_s(5), share_s(5))})
     return st.integers(2, 3).flatmap(lambda n: st.tuples(
         st.lists(surface_s(kinds, 5, _i(-200, 200, 10), types=('refl', 'refr', 'refl', 'refr', 'eval')), min_size=n, max_size=n),
         st.lists(_i(50, 300, 10), min_size=n - 1, max_size=n - 1), base)).map(assemble).filter(
@@ -1181,9 +1306,9 @@ def check_frames(case, ctx):
 
 
 CLAUSES = [
-    HypClause('trace_single', strat_single, check_trace, examples={'quick': 700, 'thorough': 4000}, shards={'quick': 4, 'thorough': 12}),
-    HypClause('trace_prescription', strat_prescription, check_trace, examples={'quick': 400, 'thorough': 2500}, shards={'quick': 3, 'thorough': 10}),
-    HypClause('trace_argtypes', strat_argtypes, check_trace, examples={'quick': 350, 'thorough': 2500}, shards={'quick': 2, 'thorough': 8}),
+    HypClause('trace_single', strat_single, check_trace, examples={'quick': 700, 'thorough': 2800}, shards={'quick': 4, 'thorough': 12}),
+    HypClause('trace_prescription', strat_prescription, check_trace, examples={'quick': 400, 'thorough': 1800}, shards={'quick': 3, 'thorough': 10}),
+    HypClause('trace_argtypes', strat_argtypes, check_trace, examples={'quick': 350, 'thorough': 1800}, shards={'quick': 2, 'thorough': 8}),
     HypClause('laws_direct', strat_laws, check_laws, examples={'quick': 600, 'thorough': 4000}, shards={'quick': 1, 'thorough': 4}),
     HypClause('frames', strat_frames, check_frames, examples={'quick': 500, 'thorough': 4000}, shards={'quick': 1, 'thorough': 4}),
 ]
